@@ -26,6 +26,7 @@ var futureQueues = []string{"applyCh", "verifyCh", "configurationChangeCh", "use
 func c17(c *Ctx) {
 	c17R1(c, "R1")
 	c17R2(c, "R2")
+	c02R3(c, "R2/C02.R3")
 	c08R1(c, "R2/C08.R1")
 	c08R4(c, "R2/C08.R4")
 	c17R3(c, "R3")
